@@ -35,3 +35,7 @@ func init() {
 func init() {
 	props["C15"] = []Stream{{"name-build", genNameBuild}, {"name-order", genNameOrder}, {"name-parse", genNameParse}, {"name-sanitize", genSanitize}}
 }
+
+func init() {
+	props["C13"] = []Stream{{"sweep", genSweep}}
+}
